@@ -405,7 +405,8 @@ func vpWantReply(c *vpKConn) []byte {
 
 //vp:property C20 C10
 //vp:set kmax 2 3
-//vp:bounds 1..kmax UDP and 1..kmax TCP KDCs; each KDC independently: refuses the connection / write fails / stays silent (read error) / replies 3 arbitrary bytes (over TCP behind their 4-byte length, possibly in two reads split anywhere, after which the KDC closes the connection or keeps it open; over UDP as one datagram); embedded message: 4-byte prefix + 2 symbolic bytes, or any 0..4 bytes (shorter than the prefix); POST with valid DER, realm "R"
+//vp:set budget 300 900
+//vp:bounds 1..kmax UDP and 1..kmax TCP KDCs, four at most in total; each KDC independently: refuses the connection / write fails / stays silent (read error) / replies 3 arbitrary bytes (over TCP behind their 4-byte length, possibly in two reads split anywhere, after which the KDC closes the connection or keeps it open; over UDP as one datagram); embedded message: 4-byte prefix + 2 symbolic bytes, or any 0..4 bytes (shorter than the prefix); POST with valid DER, realm "R"
 //vp:assume every started reader eventually sends (the 5 s deadline); goroutines run when the handler blocks (no interleaving exploration)
 //vp:reach replied noreply
 func VP_C20_relay() {
@@ -414,6 +415,7 @@ func VP_C20_relay() {
 	vpUnknown = false
 	vpUDPn = vpIntRange("udp", 1, vpParam("kmax"))
 	vpTCPn = vpIntRange("tcp", 1, vpParam("kmax"))
+	vpAssume(vpUDPn+vpTCPn <= 4) // (thorough: 3 + 3 KDCs with all their behaviours do not finish within the budget)
 	// the embedded message: normally 4-byte length prefix + Kerberos bytes, but the client controls it
 	// entirely — it may be shorter than the prefix
 	var msg, payload []byte
